@@ -118,6 +118,26 @@ open HedVerif HedVerif.Assemble
 
 /-! ### what is outside the raw closed fragment -/
 
+/-! ### definitions declared by the sidecar
+
+`TabularInput.validate` → `ColumnMapper.get_def_dict(schema, extra_def_dicts)` → `Sidecar.get_def_dict`: the rows are
+validated against the sidecar's own definitions followed by the external ones (the extraction issues are reported by sidecar
+validation only, not here). -/
+
+/-- `get_hed_strings()` of a column with its keys (a value column's single string has no key) -/
+def keyedStrings (e : J) : List (Str × Str) :=
+  match kind e with
+  | .categorical => hedObj e
+  | .value => [([], hedStr e)]
+  | _ => []
+
+/-- `Sidecar.extract_definitions(schema)`: C09's `check_for_definitions` over every entry, column by column -/
+def sidecarDict (env : Validate.Env) (sc : Sidecar) : Defs.DefDict :=
+  (sc.foldl (fun acc p => SidecarV.extractColumn (Closed.sidecarOracleD env) acc (p.1, keyedStrings p.2)) ([], [])).1
+
+/-- the environment whose dictionary is the sidecar's definitions, then the external ones -/
+def envD (env : Validate.Env) (sc : Sidecar) : Validate.Env := Closed.envWith env (sidecarDict env sc)
+
 /-- the set order of `get_column_refs()` is not modelled: outside the fragment when the assembled frame depends on it -/
 def refOrderMatters (sc : Sidecar) (t : Table) : Bool :=
   let cols := activeCols sc t.header
@@ -138,3 +158,13 @@ def onsetUnmodelled (t : Table) : Bool :=
 def headerOk (header : List Str) : Bool := header.Nodup && header.all fun n => !n.isEmpty
 
 end HedVerif.Raw
+
+namespace HedVerif.Tabular
+
+/-- `TabularInput(table, sidecar).validate(schema, extra_def_dicts)` for sidecars that may declare definitions: the raw
+pipeline with the dictionary `Raw.envD` (sidecar's definitions first, then `env.defs`) -/
+def validateClosedRawD (env : Validate.Env) (k : Raw.Consts) (sc : Assemble.Sidecar) (t : Assemble.Table) :
+    Except PyExc (List Issue) :=
+  validateClosedRaw (Raw.envD env sc) k sc t
+
+end HedVerif.Tabular
